@@ -48,6 +48,9 @@ func BaseDocs() []*Doc {
 		Q(F("paint").WithArgs(Arg{"c", EnumLit("RED")}, Arg{"t", "matt"}), F("a", Al("p", F("paint").WithArgs(Arg{"c", EnumLit("BLUE")})), Al("q", F("paint").WithArgs(Arg{"t", "gloss"})))),
 		// B14 method-backed fields (the ones a fault plan can fail under every strategy) on the elements of typed lists, two levels
 		Q(F("kids", F("id"), F("mi")), F("as", F("mi"), F("kids", F("mi"), F("mkid", F("id"))))),
+		// B15 an interface field its implementers serve with different kinds of Go members (nick: a struct field on A and C, a
+		// method on B), selected on the interface itself, on lists that mix the implementers, and on the objects
+		Q(F("nameds", F("nick"), F("name")), F("named", F("nick")), F("a", F("nick"), F("named", F("nick"))), F("b", F("nick"), F("named", F("nick")), F("buddy", F("nick"))), F("c", F("nick"), F("buddy", F("nick")))),
 	}
 }
 
